@@ -248,6 +248,15 @@ ADDENDA5 = {
 }
 ENGINE_NOTE = ' Engine: calls to functions that are not in the reference function list (new helpers, extracted or introduced) are inlined exactly before any rule runs (jv/inline.py); new private NamedTuples are dissolved (jv/sroa.py); tables, search loops and comprehensions over new module-level tables are unrolled; sentinel threading, selector sinking, walrus hoisting and type-dead None-test pruning (canon C24-C28) normalise what is left.'
 
+ADDENDA6 = {
+    'C03': 'Twelfth batch: R03.3 demands the fixed-width R || S form of every return of ECAlgModel.sign (universal, not existential).',
+    'C04': 'Twelfth batch: an ephemeral key is generated for its own recipient, never taken from a cache shared between recipients (R04.24, borrowed from R18.6).',
+    'C06': 'Twelfth batch: the JWK view that check_use / check_key_op read is stored only after it was completed with the caller\'s parameters and validated (R06.10, borrowed from R11.22).',
+    'C08': 'Twelfth batch: the tag-aware ECDH-1PU derivation is selected by the recipient\'s own algorithm (R08.19, borrowed from R04.12).',
+    'C09': 'Twelfth batch: header members the library computes (iv / tag / epk / p2s) are stored by add_header in every branch, also over a stale member of a reused header (R09.19, borrowed from R04.4).',
+    'C14': 'Twelfth batch: no call site on a call-graph route from a consuming entry to KeySet.get_by_kid lies under a handler that catches InvalidKeyIdError or an ancestor without an unconditional bare re-raise (R14.20).',
+}
+
 ADDENDA2 = {'C01': 'Later additions: per-instance containers on the message classes; the signature handed to the primitive is the received octet string itself; the header tables as the crit defence; PSS / PKCS1 primitive call table and consuming-side key selection (no kid written into a received header) as clauses. Generic routing rule: between functions that share a parameter name the property speaks about, the value is handed on as given (frozen exception table) and the parameter is not re-bound except by to_bytes / to_str of itself.',
     'C02': 'Later additions: 1PU / ES shared-secret terms, key-wrap primitive shapes, whole-key dir, and zip honoured from the protected position only, as clauses. Generic routing rule: between functions that share a parameter name the property speaks about, the value is handed on as given (frozen exception table) and the parameter is not re-bound except by to_bytes / to_str of itself.',
     'C03': 'Later additions: algorithm -> key-type table, per-instance registry, set-member key picking and JSON payload extraction (empty payload included) as clauses. Generic routing rule: between functions that share a parameter name the property speaks about, the value is handed on as given (frozen exception table) and the parameter is not re-bound except by to_bytes / to_str of itself.',
@@ -311,7 +320,7 @@ def main() -> None:
                 "evidence_file": f"/verif/evidence/{pid}.json",
                 "replay_cmd_template": f"{PY} -m jv replay {{path}}",
                 "engine": "jv",
-                "level_claimed": {"category": "other", "text": text + (" " + ADDENDA[pid] if pid in ADDENDA else "") + (" " + ADDENDA2[pid] if pid in ADDENDA2 else "") + (" " + ADDENDA3[pid] if pid in ADDENDA3 else "") + (" " + ADDENDA4[pid] if pid in ADDENDA4 else "") + (" " + ADDENDA5[pid] if pid in ADDENDA5 else "") + ENGINE_NOTE, "design_ref": f"DESIGN.md section {ref} and 11.2"},
+                "level_claimed": {"category": "other", "text": text + (" " + ADDENDA[pid] if pid in ADDENDA else "") + (" " + ADDENDA2[pid] if pid in ADDENDA2 else "") + (" " + ADDENDA3[pid] if pid in ADDENDA3 else "") + (" " + ADDENDA4[pid] if pid in ADDENDA4 else "") + (" " + ADDENDA5[pid] if pid in ADDENDA5 else "") + (" " + ADDENDA6[pid] if pid in ADDENDA6 else "") + ENGINE_NOTE, "design_ref": f"DESIGN.md section {ref} and 11.2"},
                 "level_note": note,
                 "technique": tech,
             })
